@@ -1179,6 +1179,33 @@ func runPair(e *env, c Case, seed int64) (problems, sigs []string, observed stri
 			r2.CompletePromise = &cp
 			req = &r2
 		}
+		// the idempotency key and the strict flag the client sent are the ones the kernel is asked with (C03)
+		{
+			var k *idempotency.Key
+			strict, has := false, true
+			switch c.Kind {
+			case "CreatePromise":
+				k, strict = req.CreatePromise.IdempotencyKey, req.CreatePromise.Strict
+			case "CreatePromiseAndTask":
+				k, strict = req.CreatePromiseAndTask.Promise.IdempotencyKey, req.CreatePromiseAndTask.Promise.Strict
+			case "CompletePromise":
+				k, strict = req.CompletePromise.IdempotencyKey, req.CompletePromise.Strict
+			case "CreateSchedule":
+				k, strict = req.CreateSchedule.IdempotencyKey, cc.Strict
+			default:
+				has = false
+			}
+			if has {
+				gotKey := ""
+				if k != nil {
+					gotKey = string(*k)
+				}
+				if gotKey != cc.Key || strict != cc.Strict {
+					problems = append(problems, fmt.Sprintf("%s: sent idempotency key %q strict=%v, the kernel was asked with key %q strict=%v", ep.Name, cc.Key, cc.Strict, gotKey, strict))
+					sigs = append(sigs, "translate:idempotency-fields:"+ep.Name)
+				}
+			}
+		}
 		got = append(got, normReq(req))
 		names = append(names, ep.Name)
 	}
